@@ -2,6 +2,7 @@ package harness
 
 import (
 	"bytes"
+	"encoding/json"
 	"fmt"
 	"os"
 	"testing"
@@ -24,6 +25,10 @@ type volumeCase struct {
 	Chunk   int  `json:"chunk"`
 	Beyond  int  `json:"beyond"`  // bytes behind 2^32
 	ParseAt int  `json:"parseAt"` // real Parse calls within this many MiB of 2^31 and 2^32 (0: Parse(nil) only)
+	// Run: the stream is one byte repeated (Period is ignored), every block
+	// is really parsed and has to obey the run clause of C19; the expansion
+	// is compared within ParseAt MiB of 2^31 and 2^32.
+	Run bool `json:"run,omitempty"`
 }
 
 func volumePattern(period, seed int) []byte {
@@ -59,6 +64,9 @@ func checkVolume(c volumeCase) (msg string, bad bool) {
 	}
 	bc := p.BufferConfig()
 	pat := volumePattern(c.Period, c.Seed)
+	if c.Run {
+		pat = []byte{byte('a' + c.Seed%3)}
+	}
 	var big []byte
 	for len(big) < maxInt(c.Chunk, 1<<20)+2*len(pat)+8192 {
 		big = append(big, pat...)
@@ -132,7 +140,7 @@ func checkVolume(c volumeCase) (msg string, bad bool) {
 		pos += int64(k)
 		// consume everything
 		for w < pos {
-			real := c.ParseAt > 0 && near(w)
+			real := (c.ParseAt > 0 && near(w)) || c.Run
 			var m int
 			if real {
 				m, err = p.Parse(&blk, 0)
@@ -142,7 +150,11 @@ func checkVolume(c volumeCase) (msg string, bad bool) {
 			if err != nil || m < 1 || int64(m) > pos-w || m > bc.BlockSize {
 				return fmt.Sprintf("Parse at stream offset %d (%d unparsed, BlockSize %d) = (%d, %v)", w, pos-w, bc.BlockSize, m, err), true
 			}
-			if real {
+			if c.Run && m >= 32 && len(blk.Literals) > 1 {
+				return fmt.Sprintf("run clause: block at stream offset %d (%d bytes inside a run of %#x that began at offset 0) carries %d literal bytes in %d sequences; at most 1 allowed",
+					w, m, pat[0], len(blk.Literals), len(blk.Sequences)), true
+			}
+			if real && (!c.Run || near(w)) {
 				if histEnd != w {
 					// the history restarts here: take it from the stream
 					hist = append(hist[:0], at(maxInt64(w-histLen, 0), int(minInt64(histLen, w)))...)
@@ -256,4 +268,69 @@ func TestC15Volume(t *testing.T) {
 		}
 		st.eval([]string{"volume:>2^32-bytes-through-one-instance", "volume:" + c.Cfg.Kind}, true, hashJSON(c), "volume", func() any { return c })
 	})
+}
+
+// TestC19Volume: a run of one byte of more than 2^32 bytes through one parser
+// instance, every block really parsed: the run clause of C19 has to hold in
+// every block, also where the stream position passes 2^31 and 2^32.
+func TestC19Volume(t *testing.T) {
+	st := statsFor("C19")
+	for _, kind := range kindsFromEnv([]string{"HP", "BHP", "DHP", "BDHP", "BUP"}) {
+		kind := kind
+		t.Run(kind, func(t *testing.T) {
+			rapid.Check(t, func(t *rapid.T) {
+				c := volumeCase{Run: true, Seed: rapid.IntRange(0, 2).Draw(t, "seed"), ParseAt: 2,
+					Beyond: rapid.SampledFrom([]int{3 << 20, 1 << 20, 70_000}).Draw(t, "beyond")}
+				c.Cfg.Kind = kind
+				c.Cfg.BufferSize = rapid.SampledFrom([]int{1 << 20, 8 << 20, 300_000, 1<<20 + 7}).Draw(t, "buf")
+				c.Cfg.ShrinkSize = rapid.SampledFrom([]int{0, 1024, c.Cfg.BufferSize / 2}).Draw(t, "shr")
+				c.Cfg.WindowSize = rapid.SampledFrom([]int{c.Cfg.BufferSize, 65536, 4096}).Draw(t, "win")
+				c.Cfg.BlockSize = rapid.SampledFrom([]int{0, 65536, 100_000}).Draw(t, "blk")
+				c.Chunk = rapid.SampledFrom([]int{c.Cfg.BufferSize, c.Cfg.BufferSize/2 + 1, 1<<20 + 1}).Draw(t, "chunk")
+				switch kind {
+				case "DHP", "BDHP":
+					c.Cfg.HashBits1, c.Cfg.HashBits2 = 14, 15
+				default:
+					c.Cfg.HashBits = 14
+				}
+				beginCase("C19", "volume-"+kind, func() any { return c })
+				defer endCase()
+				msg, bad := checkVolume(c)
+				endCase()
+				if bad {
+					recordFailure("C19", "volume-"+kind, c, msg)
+					t.Fatalf("C19 violated (volume, %s): %s", kind, msg)
+				}
+				st.eval([]string{"volume:run>2^32-bytes", "kind:" + kind}, true, hashJSON(c), "volume-"+kind, func() any { return c })
+			})
+		})
+	}
+}
+
+// volumeReplay tells whether raw is a volume case and, if so, runs it.
+func volumeReplay(raw json.RawMessage) (msg string, bad bool, is bool) {
+	var probe struct {
+		Chunk *int `json:"chunk"`
+	}
+	if err := json.Unmarshal(raw, &probe); err != nil || probe.Chunk == nil {
+		return "", false, false
+	}
+	var c volumeCase
+	if err := json.Unmarshal(raw, &c); err != nil {
+		return "", false, false
+	}
+	msg, bad = checkVolume(c)
+	return msg, bad, true
+}
+
+func init() {
+	for _, prop := range []string{"C15", "C19"} {
+		prev := replayers[prop]
+		replayers[prop] = func(raw json.RawMessage) (string, bool, error) {
+			if msg, bad, is := volumeReplay(raw); is {
+				return msg, bad, nil
+			}
+			return prev(raw)
+		}
+	}
 }
